@@ -564,7 +564,9 @@ fn gen_idx_assign(rng: &mut Rng, k: &Knobs, m: &Model, fault: bool) -> Option<Op
     // fault: a source with fewer elements than the index list addresses (fails after the first
     // elements if nothing checks the lengths first)
     let n = if fault && n >= 2 && rng.chance(1, 2) { 1 + rng.usize(n - 1) } else { n };
-    Expr::Lit(gen_vec_rand(rng, &ek, n))
+    // the source may also be a vector held in another variable (of the right length, or — as a fault — a shorter one)
+    let holders: Vec<&String> = names_where(m, |b| matches!(&b.v, SV::Mat(e2, r2, c2, d2) if *e2 == ek && (*r2 == 1 || *c2 == 1) && d2.len() == n)).into_iter().filter(|h| **h != name).collect();
+    if !holders.is_empty() && rng.chance(1, 2) { Expr::Var((*rng.pick(&holders)).clone()) } else { Expr::Lit(gen_vec_rand(rng, &ek, n)) }
   } else if fk == 99 && literal_matrix_kind(&ek) && matches!(sub, Sub::Two(..)) && rng.chance(1, 4) {
     // a matrix (or vector) source for a two-position form: one source element per addressed one
     match &sub {
@@ -595,7 +597,13 @@ fn gen_op_assign(rng: &mut Rng, k: &Knobs, m: &Model, fault: bool, indexed: bool
     if let Sub::One(Ix::V(v)) = &mut sub { let mut seen = vec![]; v.retain(|x| { let keep = !seen.contains(x); seen.push(*x); keep }); }
     let e = if fk == 1 { Expr::Lit(scalar_of_other_kind(rng, &ek)) }
       else if fk == 2 { failing_source(rng, k, m) }
-      else if vector_src && matches!(super::model::resolve(&sub, r, c, &m.store), Ok(ref p) if !p.is_empty()) { let n = super::model::resolve(&sub, r, c, &m.store).unwrap().len(); Expr::Lit(gen_vec_rand(rng, &ek, n)) }
+      else if vector_src && matches!(super::model::resolve(&sub, r, c, &m.store), Ok(ref p) if !p.is_empty()) {
+        let n = super::model::resolve(&sub, r, c, &m.store).unwrap().len();
+        // fault: fewer source elements than addressed ones; the source may be held in a variable
+        let n = if fault && n >= 2 && rng.chance(1, 3) { 1 + rng.usize(n - 1) } else { n };
+        let holders: Vec<&String> = names_where(m, |b| matches!(&b.v, SV::Mat(e2, r2, c2, d2) if *e2 == ek && (*r2 == 1 || *c2 == 1) && d2.len() == n)).into_iter().filter(|h| **h != name).collect();
+        if !holders.is_empty() && rng.chance(1, 2) { Expr::Var((*rng.pick(&holders)).clone()) } else { Expr::Lit(gen_vec_rand(rng, &ek, n)) }
+      }
       else { scalar_source(rng, m, &ek) };
     Some(Op::OpAssign { name, sub: Some(sub), op: bop, e })
   } else {
